@@ -19,10 +19,15 @@ def run_test(test, filt, outdir, env_extra=None):
         shutil.copy("/repo/Cargo.lock", os.path.join(rdir, "Cargo.lock"))
     os.makedirs(outdir, exist_ok=True)
     tag = (filt or "all").replace(":", "_")
+    if env_extra:
+        import hashlib
+        tag += "-" + hashlib.sha1(json.dumps(env_extra, sort_keys=True).encode()).hexdigest()[:8]
     logp = os.path.join(outdir, f"native-{test}-{tag}.log")
     cmd = ["cargo", "test", "--offline", "--test", test, "--"] + ([filt] if filt else []) + ["--nocapture", "--test-threads", "1"]
     with open(logp, "w") as lf:
-        lf.write("$ cd %s && RUSTFLAGS='--cfg pallas_verif' CARGO_TARGET_DIR=%s %s\n" % (rdir, env["CARGO_TARGET_DIR"], " ".join(cmd)))
+        import shlex
+        extra = " ".join("%s=%s" % (k, shlex.quote(v)) for k, v in sorted((env_extra or {}).items()))
+        lf.write("$ cd %s && %s RUSTFLAGS='--cfg pallas_verif' CARGO_TARGET_DIR=%s %s\n" % (rdir, extra, env["CARGO_TARGET_DIR"], " ".join(cmd)))
         lf.flush()
         r = subprocess.run(cmd, cwd=rdir, env=env, stdout=lf, stderr=subprocess.STDOUT)
     out = open(logp, errors="replace").read()
